@@ -187,13 +187,41 @@ func plant(t *rapid.T, set *ymodel.Set) string {
 	default:
 		b := bodies[rapid.IntRange(0, len(bodies)-1).Draw(t, "body")]
 		n := rapid.IntRange(1, 3).Draw(t, "cycle-length")
+		// the names of the cycle: fresh ones, or (where the scope does not define them itself) names from the
+		// pool that outer scopes or the module may define too: the cycle then shadows a sound typedef
+		names := make([]string, n)
+		for i := range names {
+			names[i] = fmt.Sprintf("cy%d", i)
+		}
+		label := fmt.Sprintf("cyclic-%d", n)
+		if rapid.Bool().Draw(t, "cycle-shadows") {
+			pool := []string{"ta", "tb", "tc"}
+			taken := map[string]bool{}
+			for _, td := range b.Typedefs {
+				taken[td.Name] = true
+			}
+			k := 0
+			for _, p := range pool {
+				if !taken[p] && k < n {
+					names[k] = p
+					k++
+				}
+			}
+			if k > 0 {
+				label += "-shadowing"
+			}
+		}
 		for i := 0; i < n; i++ {
-			b.Typedefs = append(b.Typedefs, &ymodel.Typedef{Name: fmt.Sprintf("cy%d", i), Type: &ymodel.TypeRef{Name: fmt.Sprintf("cy%d", (i+1)%n)}})
+			next := &ymodel.TypeRef{Name: names[(i+1)%n]}
+			if rapid.IntRange(0, 3).Draw(t, "cycle-through-union") == 0 {
+				next = &ymodel.TypeRef{Name: "union", Union: []*ymodel.TypeRef{{Name: "string"}, next}}
+			}
+			b.Typedefs = append(b.Typedefs, &ymodel.Typedef{Name: names[i], Type: next})
 		}
 		if rapid.Bool().Draw(t, "cycle-used") {
-			b.Nodes = append(b.Nodes, &ymodel.Node{Kind: ymodel.KLeaf, Name: "cyleaf", Type: &ymodel.TypeRef{Name: "cy0"}})
+			b.Nodes = append(b.Nodes, &ymodel.Node{Kind: ymodel.KLeaf, Name: "cyleaf", Type: &ymodel.TypeRef{Name: names[0]}})
 		}
-		return fmt.Sprintf("cyclic-%d", n)
+		return label
 	}
 }
 
@@ -216,7 +244,7 @@ func TestCheck(t *testing.T) {
 	ev.Run(t, ev.Spec[Case]{
 		ID:    "C09",
 		Level: "exploration",
-		Rule: "module sets from the schema model with typedefs at module, submodule, container, list, grouping, rpc, action, input, output and notification scope, all named from a pool of three (heavy shadowing), chained through restrictions across module and submodule borders, referenced without prefix, with the own prefix and with foreign prefixes drawn from a pool of four (so one module's prefix for another equals a third module's own prefix); every typedef carries a unique units mark (and often a default) so a wrong binding is observable; one sixth of the cases plant an unknown name, an unknown prefix, a built-in name behind an own, imported or unknown prefix, or a derivation cycle of length 1-3. " +
+		Rule: "module sets from the schema model with typedefs at module, submodule, container, list, grouping, rpc, action, input, output and notification scope, all named from a pool of three (heavy shadowing), chained through restrictions across module and submodule borders, referenced without prefix, with the own prefix and with foreign prefixes drawn from a pool of four (so one module's prefix for another equals a third module's own prefix); every typedef carries a unique units mark (and often a default) so a wrong binding is observable; one sixth of the cases plant an unknown name, an unknown prefix, a built-in name behind an own, imported or unknown prefix, or a derivation cycle of length 1-3 (also through union members, and under names that an outer scope or the module defines soundly). " +
 			"Oracle: reference binder + type folding over the model (never goyang): for each leaf and leaf-list the resolved type's kind, name, units, default, fraction-digits, patterns in order, enum/bit maps, path, union members, range/length sets and DefaultValues() equal the folded reference, compared after the whole set is processed; a valid set must not be rejected by type resolution; a planted fault must yield an error. " +
 			"Non-trivial = >= 2 typedefs and >= 2 references to typedefs, or a planted fault; distinct by (set, order)",
 		Assumptions: []string{
